@@ -181,6 +181,10 @@ def run_case(case):
         errs[qty] = max(errs.get(qty, 0.0), e)
         # quantities built from 3rd/4th derivatives amplify the 1e-16 rounding of the moved coordinates by alpha^2
         tol = 1e-8 if qty in ("force", "ehrenfest_hessian", "deriv_signed_perm", "deriv_density_signed_perm") else TOL
+        if qty == "eri":
+            # two evaluations of integrals whose own accuracy class is 1e-6 of the Schwarz scale (C04, including its recorded
+            # recursion-amplification finding for contractions spanning 0.05..30): twice that bound, as in C11 (FA26)
+            tol = 2e-6
         if not e <= tol:
             viols.append(cm.viol("%s: moved-system result differs from the transformation law by %.3e of the array scale" % (what, e), qty, e, TOL,
                                  R=case["R"], d=case["d"]))
